@@ -153,9 +153,13 @@ def apply_spec(spec: dict, op: dict) -> tuple[bool, dict]:
             return reject()
         if "ia" in c:
             try:
-                cur = rm.Ref(s).parameter_values()[op["name"]]
+                ref = rm.Ref(s)
             except Exception:  # noqa: BLE001
                 return reject()
+            try:
+                cur = float(ref._v0[op["name"]])  # noqa: SLF001
+            except (TypeError, ValueError):
+                return None, spec  # type: ignore[return-value]  # non-numeric assignment value: outside the workload
             c.pop("ia")
             c["value"] = cur * op["factor"]
         else:
@@ -201,12 +205,17 @@ def apply_spec(spec: dict, op: dict) -> tuple[bool, dict]:
             p["value"] = c["value"]
         s["components"].append(p)
     elif o in ("add_parameters", "add_variables", "update_parameters", "update_variables", "remove_parameters", "remove_variables", "scale_parameters"):
+        # a plural edit is the sequence of its single edits and stops at the first rejected one (atomicity of
+        # plural forms is not asserted): on rejection the mirror keeps the accepted prefix
         single = o[:-1]
         cur = s
         for it in op["items"]:
-            rej, cur = apply_spec(cur, {"op": single, **it})
+            rej, nxt = apply_spec(cur, {"op": single, **it})
+            if rej is None:
+                return None, spec  # type: ignore[return-value]
             if rej:
-                return reject()  # workloads only use all-valid or first-invalid plural edits
+                return True, cur
+            cur = nxt
         s = cur
     else:
         raise ValueError(o)
@@ -639,6 +648,9 @@ def step(model, mirror: dict, op: dict, *, cache_populated_counter: list[int], c
     """Apply op to real model and mirror; compare. Returns (new mirror, violations)."""
     viols: list[dict] = []
     exp_reject, mirror_after = apply_spec(mirror, op)
+    if exp_reject is None:
+        return mirror, [{"_stop": True}]  # type: ignore[list-item]
+    plural = op["op"].endswith("s") and "items" in op
     before = observe(model)  # also populates the cache
     if model._cache is not None:  # noqa: SLF001  (evidence annotation only)
         cache_populated_counter[0] += 1
@@ -649,6 +661,13 @@ def step(model, mirror: dict, op: dict, *, cache_populated_counter: list[int], c
         rejected = f"{type(e).__name__}: {e}"[:200]
     if rejected is not None:
         after = observe(model)
+        if plural and exp_reject:
+            # compare with the accepted prefix instead of 'unchanged'
+            d = diff_obs(after, observe(rm.build(mirror_after)))
+            if d:
+                viols.append(core.viol("plural edit: model differs from the accepted prefix of its single edits", None, op=op, error=rejected, differing={k: v for k, v in list(d.items())[:4]}))
+                return mirror_after, viols + [{"_stop": True}]  # type: ignore[list-item]
+            return mirror_after, viols
         d = diff_obs(after, before)
         if d:
             viols.append(core.viol("rejected edit changed an observable", _mech_rejected(op), op=op, error=rejected, changed={k: v for k, v in list(d.items())[:4]}))
@@ -677,8 +696,8 @@ def step(model, mirror: dict, op: dict, *, cache_populated_counter: list[int], c
                 exp = rm.Ref(mirror_after).rhs(None, 0.0)
                 if not same(a["get_right_hand_side"], exp):
                     viols.append(core.viol("edited and fresh model agree but differ from the reference evaluator", None, op=op, got=a["get_right_hand_side"], expected=exp))
-            except (rm.RefMissing, rm.RefCycle, KeyError):
-                pass
+            except (rm.RefMissing, rm.RefCycle, KeyError, TypeError, ValueError, AssertionError):
+                pass  # malformed content (both real models raise alike) or non-numeric values: no second opinion
     return mirror_after, viols
 
 
@@ -771,12 +790,14 @@ def _step_nocache_probe(model, mirror, op, pre, cpc):  # noqa: ANN001, ANN202
         return step(model, mirror, op, cache_populated_counter=cpc)
     viols: list[dict] = []
     exp_reject, mirror_after = apply_spec(mirror, op)
+    if exp_reject is None:
+        return mirror, []
     try:
         apply_real(model, op)
         rejected = None
     except Exception as e:  # noqa: BLE001
         rejected = f"{type(e).__name__}: {e}"[:200]
-    target = mirror if rejected is not None else mirror_after
+    target = mirror_after if (rejected is None or (op["op"].endswith("s") and "items" in op)) else mirror
     if rejected is None and exp_reject:
         return mirror, [core.viol("edit with duplicate/unknown name was accepted", _mech_accepted(op), op=op)]
     if rejected is not None and not exp_reject:
